@@ -27,8 +27,8 @@ from harness import _c06_models as M
 
 DELTA = 1e-12
 FAR = 3.0
-ALLFAMS = ["W", "LN", "NF", "EW", "GG", "N", "VM"]
-SCIPY_NAME = {"W": "weibull_min", "LN": "lognorm", "NF": "lognorm", "EW": "exponweib", "GG": "gengamma", "N": "norm", "VM": "vonmises"}
+ALLFAMS = ["W", "LN", "NF", "EW", "GG", "N", "VM", "SW"]
+SCIPY_NAME = {"W": "weibull_min", "LN": "lognorm", "NF": "lognorm", "EW": "exponweib", "GG": "gengamma", "N": "norm", "VM": "vonmises", "SW": "weibull_min"}
 
 
 def dkw(n, k=1):
@@ -118,7 +118,6 @@ def mkseed(seed, seed_type="int"):
 
 def draw_case(ctx, rng, spec, n, rs_kind, name, seed=None, seed_type="int"):
     """Run the real draw_sample with the rvs proxy; returns (coq text, expression, meta)."""
-    model = M.build_model(spec)
     ids = {}
 
     def sid(key):
@@ -140,6 +139,7 @@ def draw_case(ctx, rng, spec, n, rs_kind, name, seed=None, seed_type="int"):
         rs_term = "(RSGen %d%%nat)" % init
     with Recording() as log:
         try:
+            model = M.build_model(spec)      # inside: a ScipyDistribution looks its scipy family up when it is created
             sample = model.draw_sample(n, random_state=rs_arg)
             err = None
         except Exception as e:  # noqa
@@ -390,7 +390,7 @@ def _o_univariate(dimspec, n, seed, stats, given=None):
         draw = lambda rs: np.asarray(dist.draw_sample(n, random_state=rs), dtype=float)
     else:
         import virocon
-        cls = getattr(vd, M.FAMS[dimspec["fam"]][0])
+        cls = M.fam_class(dimspec["fam"])
         fixed = {"f_" + k: v[1] for k, v in dimspec["params"].items() if v[0] == "fix"}
         deps = {k: virocon.DependenceFunction(M.dep_callable(v[1], v[2])) for k, v in dimspec["params"].items() if v[0] == "dep"}
         cd = vd.ConditionalDistribution(cls(**fixed), deps)
@@ -418,10 +418,61 @@ def _o_univariate(dimspec, n, seed, stats, given=None):
     return None
 
 
+def _o_predefined(name, n, seed, stats):
+    """a predefined model fitted to a benchmark data set: shape, seeding, Rosenblatt transform (the model's own per-dimension
+    cdfs) uniform and independent; for the models defined in a transformed space the TransformedModel's draw_sample is the
+    inverse transform of the inner model's sample drawn with the same random_state, reproducibly"""
+    import virocon
+    model, trans = M.predefined_parts(name)
+    nd = model.n_dim
+    a = np.asarray(model.draw_sample(n, random_state=seed), dtype=float)
+    if a.shape != (n, nd):
+        return ({"clause": "shape", "model": "predefined"}, "get_%s: draw_sample(%d) has shape %r" % (name, n, a.shape))
+    if not np.array_equal(a, model.draw_sample(n, random_state=seed)) or not np.array_equal(
+            model.draw_sample(n, random_state=np.random.default_rng(seed)), model.draw_sample(n, random_state=np.random.default_rng(seed))):
+        return ({"clause": "seed-reproducible", "model": "predefined"}, "get_%s: draw_sample(%d, random_state=%d) is not reproducible" % (name, n, seed))
+    if n >= 2 and np.array_equal(a, model.draw_sample(n, random_state=seed + 1)):
+        return ({"clause": "seeds-differ", "model": "predefined"}, "get_%s: seeds %d and %d give the same sample" % (name, seed, seed + 1))
+    if n >= 1000 and np.all(np.isfinite(a)):
+        u = np.empty_like(a)
+        for i in range(nd):
+            c = model.conditional_on[i]
+            u[:, i] = model.distributions[i].cdf(a[:, i]) if c is None else model.distributions[i].cdf(a[:, i], given=a[:, c])
+        eps = dkw(n, nd)
+        for i in range(nd):
+            d = ks_uniform(u[:, i])
+            stats["ks_over_eps_max_predefined"] = max(stats.get("ks_over_eps_max_predefined", 0.0), d / eps)
+            if d > FAR * eps:
+                return ({"clause": "distribution", "kind": "conditional" if model.conditional_on[i] is not None else "marginal", "model": "predefined"},
+                        "get_%s: draw_sample(%d, random_state=%d): column %d given column %r does not follow its (conditional) cdf: KS %.4f, band %.4f" % (
+                            name, n, seed, i, model.conditional_on[i], d, eps))
+        grid = np.linspace(0.15, 0.85, 6)
+        eps2 = math.sqrt(math.log(2 * len(grid) ** 2 * nd * nd / DELTA) / (2 * n))
+        for i in range(nd):
+            for j in range(i + 1, nd):
+                for p_ in grid:
+                    for q in grid:
+                        dev = abs(float(np.mean((u[:, i] <= p_) & (u[:, j] <= q))) - float(np.mean(u[:, i] <= p_)) * float(np.mean(u[:, j] <= q)))
+                        if dev > FAR * 2 * eps2:
+                            return ({"clause": "distribution", "kind": "independence", "model": "predefined"},
+                                    "get_%s: draw_sample(%d, random_state=%d): Rosenblatt-transformed columns %d and %d are dependent (%.4f, band %.4f)" % (
+                                        name, n, seed, i, j, dev, 2 * eps2))
+    if trans is not None:
+        tm = virocon.TransformedModel(model, trans["transform"], trans["inverse"], trans["jacobian"])
+        t1 = np.asarray(tm.draw_sample(n, random_state=seed), dtype=float)
+        want = np.asarray(trans["inverse"](model.draw_sample(n, random_state=seed)), dtype=float)
+        if t1.shape != (n, nd) or not np.array_equal(t1, want, equal_nan=True):
+            return ({"clause": "seed-reproducible", "model": "transformed"},
+                    "get_%s: TransformedModel.draw_sample(%d, random_state=%d) is not the inverse transform of the inner model's sample for that seed" % (name, n, seed))
+        if not np.array_equal(t1, tm.draw_sample(n, random_state=seed), equal_nan=True):
+            return ({"clause": "seed-reproducible", "model": "transformed"}, "get_%s: TransformedModel.draw_sample(%d, random_state=%d) is not reproducible" % (name, n, seed))
+    return None
+
+
 def build_conditional(dimspec):
     import virocon
     import virocon.distributions as vd
-    cls = getattr(vd, M.FAMS[dimspec["fam"]][0])
+    cls = M.fam_class(dimspec["fam"])
     fixed = {"f_" + k: v[1] for k, v in dimspec["params"].items() if v[0] == "fix"}
     deps = {k: virocon.DependenceFunction(M.dep_callable(v[1], v[2])) for k, v in dimspec["params"].items() if v[0] == "dep"}
     return vd.ConditionalDistribution(cls(**fixed), deps)
@@ -479,6 +530,7 @@ o_redraw = _safe(_o_redraw, "model.draw_sample(n, random_state=Generator)")
 o_statistics = _safe(_o_statistics, "model.draw_sample(n, random_state=seed)")
 o_univariate = _safe(_o_univariate, "dist.draw_sample(n, random_state=seed)")
 o_twin = _safe(_o_twin, "model.draw_sample(n, random_state=seed)")
+o_predefined = _safe(_o_predefined, "predefined model draw_sample(n, random_state=seed)")
 o_conditional_vector = _safe(_o_conditional_vector, "ConditionalDistribution.draw_sample(n, given_vector, random_state=Generator)")
 
 
@@ -495,6 +547,8 @@ def replay(ctx, rp):
         o = o_statistics(rp["spec"], rp["n"], mkseed(rp["seed"], rp.get("seed_type", "int")), stats)
     elif kind == "conditional_vector":
         o = o_conditional_vector(rp["dimspec"], rp["n"], rp["seed"], rp["givens"], stats)
+    elif kind == "predefined":
+        o = o_predefined(rp["name"], rp["n"], rp["seed"], stats)
     elif kind == "twin":
         o = o_twin(rp["spec"], rp["n"], rp["seed"], rp.get("seed_type", "int"))
     elif kind == "univariate":
@@ -539,7 +593,8 @@ def run(ctx):
     specs = []
     for i in range(nmodels):
         fams = ALLFAMS if i % 3 else M.NONNEG
-        sp = M.rand_spec(rng, fams=fams, first=rng.choice(M.NONNEG), allow_const=(i % 9 == 4))
+        sp = M.rand_spec(rng, n_dim=(4 if i % 12 == 7 else None), fams=fams, first=rng.choice(M.NONNEG), allow_const=(i % 9 == 4),
+                         force_cond=(i % 12 == 7))
         specs.append(fix_spec(rng, sp))
     for st in [(None, None), (None, 0), (None, None, None), (None, 0, None), (None, None, 0), (None, None, 1), (None, 0, 0), (None, 0, 1)]:
         sp = M.rand_spec(rng, n_dim=len(st), fams=M.NONNEG)
@@ -558,7 +613,8 @@ def run(ctx):
     ctx.notes["input_distribution"] = {"models_by_structure": dist, "families": sorted({d["fam"] for sp in specs for d in sp["dims"]}),
                                        "n_coq": "1..200", "n_oracle": "1, 2, 3, 17, 1000, 20000 (thorough: up to 1e6)",
                                        "random_state": ["None", "int", "Generator"],
-                                       "edge_seeds_every_run": ["0", "np.int64(0)", "2**32-1", "1"]}
+                                       "edge_seeds_every_run": ["0", "np.int64(0)", "2**32-1", "1"],
+                                       "predefined_models_every_run": sorted(M.PREDEFINED), "user_defined_family": "ScipyDistribution subclass (weibull_min)"}
 
     # ---- correspondence
     per_shard = 14
@@ -586,7 +642,37 @@ def run(ctx):
     body += "Eval vm_compute in [%s].\n" % ";\n  ".join(exprs)
     items.append(("cases_edge_seeds", body))
     metas.append(shard_meta)
+    # Distribution._get_rvs_size against the model's get_rvs_size: scalars, lists, tuples, arrays in any mix
+    import virocon.distributions as vd
+    size_cases, size_exprs = [], []
+    for _ in range(ctx.n(60, 400)):
+        n0 = rng.choice([1, 1, 2, 5, 100])
+        L = rng.choice([1, 2, 3, 7])
+        pars, terms = [], []
+        for _k in range(rng.choice([1, 2, 3, 4])):
+            kind = rng.choice(["scalar", "scalar", "npscalar", "list", "tuple", "array"])
+            vals = [rng.uniform(0.1, 3) for _v in range(L)]
+            if kind == "scalar":
+                pars.append(vals[0]); terms.append("PScal %s" % fl(vals[0]))
+            elif kind == "npscalar":
+                pars.append(np.float64(vals[0])); terms.append("PScal %s" % fl(vals[0]))
+            else:
+                pars.append({"list": list, "tuple": tuple, "array": np.array}[kind](vals)); terms.append("PVec %s" % fl_list(vals))
+        got = vd.Distribution._get_rvs_size(n0, pars)
+        size_cases.append((n0, [type(q).__name__ for q in pars], got))
+        want = "SizeNL %d%%nat %d%%nat" % (got[0], got[1]) if isinstance(got, tuple) else "SizeN %d%%nat" % got
+        size_exprs.append("match get_rvs_size %d%%nat [%s], %s with SizeN a, SizeN b => Nat.eqb a b | SizeNL a b, SizeNL c d => Nat.eqb a c && Nat.eqb b d | _, _ => false end" % (
+            n0, "; ".join(terms), want))
+    items.append(("cases_rvs_size", PRELUDE + "Eval vm_compute in [%s].\n" % ";\n  ".join(size_exprs)))
     outs = ctx.coq_eval_many(items, jobs=12)
+    size_out = outs.pop()
+    items.pop()
+    nsize_ok = 0
+    if size_out is not None:
+        for ok, case in zip(vlib.parse_term(size_out[0]), size_cases):
+            nsize_ok += bool(ok)
+            if not ok:
+                ctx.mismatch("_get_rvs_size%r" % (case[:2],), "implementation returned %r, the model something else" % (case[2],))
     names = {1: "sample differs from the model's (row pairing / parameters / values)", 2: "final generator state differs",
              3: "number of rvs calls", 4: "draw_sample raised", 5: "shape"}
     suspects, ncmp, nok = [], 0, 0
@@ -602,7 +688,8 @@ def run(ctx):
                                  "%s %s %s" % (names.get(code, code), m.get("err") or "", "; ".join(m["notes"])))
                 suspects.append(m)
     ctx.cov["programs"] = 3
-    ctx.notes["correspondence"] = {"draws_compared": ncmp, "bit_exact_with_same_calls_and_state": nok}
+    ctx.notes["correspondence"] = {"draws_compared": ncmp, "bit_exact_with_same_calls_and_state": nok,
+                                   "get_rvs_size_cases": len(size_cases), "get_rvs_size_agree": nsize_ok}
     for m in [mm for sm in metas for mm in sm][:2]:
         ctx.sample({"spec": m["spec"], "n": m["n"], "random_state": m["rs"], "shape": m.get("shape")})
 
@@ -698,6 +785,13 @@ def run(ctx):
             g = rng.uniform(0.3, 4.0)
             neval += 1
             report(o_univariate(dc, nbig, seed, stats, given=g), {"oracle": "univariate", "dimspec": dc, "n": nbig, "seed": seed, "given": g})
+    # every predefined model (fitted to a benchmark data set); the two defined in a transformed space also as TransformedModel
+    for name in M.PREDEFINED:
+        seed = rng.randrange(2 ** 31)
+        for n in (1, 2, nbig):
+            neval += 1
+            if report(o_predefined(name, n, seed, stats), {"oracle": "predefined", "name": name, "n": n, "seed": seed}):
+                break
     # direct ConditionalDistribution.draw_sample with vectors of conditioning values, integer- and float-typed
     for fam in ALLFAMS:
         for rep in range(ctx.n(2, 10)):
